@@ -543,3 +543,85 @@ _run_r5 = run
 def run(chk):  # noqa: F811
     _run_r5(chk)
     r4_null_only_without_security(chk)
+
+
+# ----------------------------------------------------------------------------
+# R8: the role a mechanism runs in is decided locally (who listens), never by peer bytes
+# ----------------------------------------------------------------------------
+def r8_role_is_local(chk):
+    r = chk.rule("R8", "the mechanism role (server / client side) is decided by the local endpoint, never by peer bytes", "T11 derives-from (negative) + T1 who-may-write",
+                 "the bool handed to every mechanism initializer derives only from negotiate_security_mechanism's own `is_server` parameter; the engine passes its constructor-assigned "
+                 "`self.is_server`; the role fields of the engine and of every mechanism are written only when the object is built")
+    for cfg, prog in chk.configs():
+        nb = prog.body("security::negotiate_security_mechanism")
+        if nb is None:
+            r.bad(cfg, "anchor|negotiate_security_mechanism", "-", "function not found")
+            continue
+        names, _ = nb.names
+        role_params = [names.get(i) for i in range(1, nb.rec.get("argc", 0) + 1) if nb.locals[i] == "bool"]
+        peer_params = [names.get(i) for i in range(1, nb.rec.get("argc", 0) + 1) if "Greeting" in nb.locals[i]]
+        n = 0
+        for c in nb.calls:
+            if c.kind == "def":
+                continue
+            bools = [a for a in c.args if a["c"] in ("copy", "move") and a["p"]["ty"] == "bool"]
+            for a in bools:
+                n += 1
+                sl = nb.data_slice(a)
+                key = "negotiate_security_mechanism|role passed to the initializer is the local role"
+                bad = [x for x in sl if (x[0] == "place" and any(re.search(r"(?<![\w.])%s\b" % re.escape(pp), x[1]) for pp in peer_params))
+                       or (x[0] == "param" and x[1] in peer_params) or x[0] == "call"]
+                if bad:
+                    r.bad(cfg, key, where(nb, c.blk), "the role handed to the mechanism initializer depends on %s: a peer can choose which side of the mechanism a secured endpoint runs (e.g. make a PLAIN/CURVE listener act as client, reveal its credentials and accept a bare WELCOME)" % ", ".join(sorted(str(x[1]) for x in bad))[:300])
+                elif not any(x[0] == "param" and x[1] in role_params for x in sl):
+                    r.bad(cfg, key, where(nb, c.blk), "the role handed to the mechanism initializer does not derive from the function's own role parameter (slice: %s)" % sorted(sl)[:6])
+                else:
+                    r.ok(cfg, key, where(nb, c.blk), "slice = {%s}" % ", ".join(sorted("%s:%s" % (x[0], x[1]) for x in sl if x[0] != "const")))
+        # callers: the engine passes self.is_server
+        for c in prog.calls_to(r"security::negotiate_security_mechanism$"):
+            if "::tests" in c.body.path:
+                continue
+            n += 1
+            sl = c.body.data_slice(c.args[0])
+            key = "%s|role argument is the engine's own role" % short(c.body.path)
+            leaves = set(x for x in sl if x[0] != "const")
+            if leaves and all(x[0] == "place" and re.match(r"^self\.is_server$", x[1]) for x in leaves):
+                r.ok(cfg, key, where(c.body, c.blk), "self.is_server")
+            else:
+                r.bad(cfg, key, where(c.body, c.blk), "the role passed to the negotiation is not the engine's constructor-assigned `self.is_server` alone (slice: %s)" % sorted(leaves)[:6])
+        # who may write a role field
+        role_fields = []
+        for path, a in prog.facts.adts.items():
+            if not re.search(r"^(security::|protocol::zmtp::engine::ZmtpEngine$)", path):
+                continue
+            for v in a["variants"]:
+                for f in v["fields"]:
+                    if f["ty"] == "bool" and re.search(r"is_server", f["name"]):
+                        role_fields.append((path, f["name"]))
+        for path, fname in sorted(set(role_fields)):
+            writers = []
+            for b in prog.bodies.values():
+                if "::tests" in b.path:
+                    continue
+                for blk, i, st in b.statements():
+                    if st["k"] == "assign" and st["p"]["pr"] and st["p"]["pr"][-1][0] == "field" and st["p"]["pr"][-1][2] == fname:
+                        base_ty = st["p"]["pr"][-1][3] if len(st["p"]["pr"][-1]) > 3 else ""
+                        pp = b.place_path(st["p"])
+                        if b.impl_self and strip_generics(b.impl_self).split("<")[0] == path:
+                            writers.append((b, blk, pp))
+            n += 1
+            key = "%s.%s|written only at construction" % (path.rsplit("::", 1)[-1], fname)
+            if writers:
+                b, blk, pp = writers[0]
+                r.bad(cfg, key, where(b, blk), "`%s` is assigned after construction in %s: the role of a mechanism / engine must not change during a handshake" % (pp, short(b.path)))
+            else:
+                r.ok(cfg, key, path, "no assignment outside the constructor's struct expression")
+        r.require(cfg, 4, "role obligations")
+
+
+_run_r4 = run
+
+
+def run(chk):  # noqa: F811
+    _run_r4(chk)
+    r8_role_is_local(chk)
